@@ -17,7 +17,7 @@ RULE = ("random joint degree distributions over 1..4 topologies (zero components
         "harness builder; non-trivial = >= 2 topologies and >= 3 keys; distinct = SHA-1 of the concrete distribution/matrix/network and names")
 ASSUMPTIONS = ["identities compared at 1e-10", "the inversion clause is asserted only when some joint degree is positive in every topology",
                "network clause uses vertex-transitive motifs (cliques, cycles) where memberships and edge ends are proportional"]
-HEADLINE = ["cases", "excess_checks", "inversion_checks", "inversion_not_applicable", "row_sum_checks", "network_checks", "mean_checks", "names_without_2-clique", "names_2-clique_not_first", "dict_order_differs_from_names"]
+HEADLINE = ["cases", "excess_checks", "inversion_checks", "inversion_not_applicable", "row_sum_checks", "network_checks", "mean_checks", "names_without_2-clique", "names_2-clique_not_first", "dict_order_differs_from_names", "matrices_configured_through_setters"]
 REQUIRED = {t: {"excess_checks": 100, "inversion_checks": 50, "row_sum_checks": 30, "network_checks": 10, "mean_checks": 100,
                 "names_without_2-clique": 30, "names_2-clique_not_first": 10, "dict_order_differs_from_names": 30} for t in ("quick", "thorough")}
 TOL = 1e-10
@@ -155,7 +155,21 @@ def check_row_sums(res, rng, T, names):
         rng.shuffle(order)
         if order != list(names):
             res.count("dict_order_differs_from_names")
-    M = sut("JointExcessJointDegreeMatrices(params)", gcmpy.JointExcessJointDegreeMatrices, {TN.EJKS: {n: mats[n] for n in order}, TN.EDGE_NAMES: list(names)})
+    if rng.random() < 0.6:
+        M = sut("JointExcessJointDegreeMatrices(params)", gcmpy.JointExcessJointDegreeMatrices, {TN.EJKS: {n: mats[n] for n in order}, TN.EDGE_NAMES: list(names)})
+    else:
+        # the same object configured through its public setters, in either order
+        res.count("matrices_configured_through_setters")
+
+        def _configure():
+            m = gcmpy.JointExcessJointDegreeMatrices()
+            if rng.random() < 0.5:
+                m.topology_names = list(names); m.ejks = {n: mats[n] for n in order}
+            else:
+                m.ejks = {n: mats[n] for n in order}; m.topology_names = list(names)
+            m.get_excess_degree_keys()
+            return m
+        M = sut("JointExcessJointDegreeMatrices() + setters", _configure)
     got = sut("JointExcessFromEjk.get_excess_joint_distributions", gcmpy.JointExcessFromEjk.get_excess_joint_distributions, M)
     res.count("row_sum_checks")
     for n in names:
